@@ -22,9 +22,11 @@ from concurrent.futures import ThreadPoolExecutor
 from insights.core import dr, serde
 from insights.core import spec_factory as sf
 from insights.core.context import HostContext, SerializedArchiveContext
+from insights.core.exceptions import CalledProcessError, ContentException, SkipComponent, TimeoutException
 from insights.core.hydration import initialize_broker
 from insights.core.plugins import datasource
 from insights.core.serde import Hydration
+from insights.core.spec_factory import RegistryPoint, SpecSet
 
 ENGINE = "/usr/bin/podman"
 _real_which = sf.which
@@ -80,7 +82,35 @@ def _mk(i):
 
 
 for _i in range(1, 7):
-    COMPS.append(_mk(_i))
+    COMPS.append(_mk(_i))            # stand-alone datasources: they implement no registry point
+
+
+def _mkb(i):
+    def impl(broker):
+        return CUR[i](broker)
+    impl.__name__ = impl.__qualname__ = "impl%d" % i
+    return datasource(HostContext)(impl)
+
+
+class VSpecs(SpecSet):               # registry points: what collection persists for spec-backed datasources
+    s1 = RegistryPoint()
+    s2 = RegistryPoint()
+    s3 = RegistryPoint()
+    s4 = RegistryPoint()
+    s5 = RegistryPoint()
+    s6 = RegistryPoint()
+
+
+class VImpl(VSpecs):                 # their implementations
+    s1 = _mkb(1)
+    s2 = _mkb(2)
+    s3 = _mkb(3)
+    s4 = _mkb(4)
+    s5 = _mkb(5)
+    s6 = _mkb(6)
+
+
+POINTS = [getattr(VSpecs, "s%d" % _i) for _i in range(1, 7)]
 
 PLAIN = ["alpha beta 123", "key = value", "# comment; with, punctuation!", "0", "x", "a  b\tc", "{\"json\": [1, 2]}",
          "-rw-r--r--. 1 root root 42 Jan  1 00:00 /etc/hosts"]
@@ -103,6 +133,7 @@ class Case(object):
         self.token = {}     # text -> token
         self.ctx = CannedHostContext(self.src)
         self.pooled = bool(case.get("pooled"))
+        self.raised = {}
 
     # -- concretisation -----------------------------------------------------
     def concrete(self, atom, c, j, k):
@@ -187,7 +218,17 @@ class Case(object):
 
     def producer(self, c, e):
         def run(broker):
-            if e["failed"]:
+            oc = e.get("outcome", "crash" if e["failed"] else "ok")
+            if oc != "ok":
+                self.raised[c] = oc               # what the body really did: its outcome is an input of the case
+                if oc == "content":
+                    raise ContentException("component %d: no content, on purpose" % c)
+                if oc == "cmd":
+                    raise CalledProcessError(1, "/bin/false c%d" % c, "on purpose")
+                if oc == "timeout":
+                    raise TimeoutException("component %d timed out, on purpose" % c)
+                if oc == "skip":
+                    raise SkipComponent("component %d skipped, on purpose" % c)
                 raise RuntimeError("component %d failed on purpose" % c)
             vals = []
             n = len(e["elems"])
@@ -236,7 +277,9 @@ class Case(object):
     def run(self, via, stats):
         case = self.case
         n = len(case["entries"])
-        comps = COMPS[:n]
+        # the key under which an entry is persisted / loaded: the registry point for a spec-backed datasource,
+        # the datasource itself for a stand-alone one
+        comps = [POINTS[i] if e.get("backed") else COMPS[i] for i, e in enumerate(case["entries"])]
         names = [dr.get_name(c) for c in comps]
         CUR.clear()
         for i, e in enumerate(case["entries"], 1):
@@ -269,8 +312,17 @@ class Case(object):
                     continue
                 before_text[(i, len(elems) + 1)] = ls
                 elems.append(dict(lines=self.lines_tok(ls), cmd=p.cmd or "", args=self.args_proj(p.args)))
-            centries.append(dict(kind=kind, multi=isinstance(v, list), failed=bool(broker.exceptions.get(comp)),
+            # failed = the body raised a failing exception (its outcome is an input of the case), or the broker holds
+            # an exception for what is persisted (e.g. an element that could not be serialised)
+            oc = self.raised.get(i, "ok")
+            recorded = bool(broker.exceptions.get(comp))
+            if oc == "ok" and recorded:
+                oc = "serialization"
+            centries.append(dict(kind=kind, multi=isinstance(v, list),
+                                 failed=oc in ("content", "cmd", "timeout", "crash", "serialization"),
+                                 outcome=oc, backed=bool(e.get("backed")), recorded=recorded,
                                  saveas=e["saveas"], elems=elems))
+            stats["failed_" + ("backed" if e.get("backed") else "alone")] += int(oc not in ("ok", "skip"))
         events.append(dict(ev="collected", comps=centries, pooled=self.pooled))
         # ---- persisted
         docs, env = [], []
@@ -423,7 +475,7 @@ def main():
     rng = random.Random(req.get("seed", 0))
     _ORDER["rng"] = random.Random(req.get("seed", 0) + 1)
     os.makedirs(req["base"], exist_ok=True)
-    stats = dict(pooled=0, archives=0, docs=0, docs_with_results=0, docs_with_errors=0, datafiles=0, faults=0, loaded=0)
+    stats = dict(failed_backed=0, failed_alone=0, pooled=0, archives=0, docs=0, docs_with_results=0, docs_with_errors=0, datafiles=0, faults=0, loaded=0)
     traces = []
     for k, case in enumerate(req["cases"]):
         c = Case(case, req["base"], rng, req.get("longlen", 70000))
